@@ -10,6 +10,7 @@ import json
 import os
 
 POOLS = None
+_HANGS = 0  # hangs seen by this process: after the first one the watchdog becomes impatient
 
 
 def pools():
@@ -87,7 +88,7 @@ def ptype(obj):
     return "None" if obj is None else type(obj).__name__
 
 
-def direct_parse(raw, msgmode=0, validate=1, pbf=1):
+def direct_parse(raw, msgmode=0, validate=1, pbf=1, labelmsm=1):
     """independent call of the protocol's own parser: (accepted?, digest, family of rejection)"""
     from pynmeagps import NMEAReader
     from pyrtcm import RTCMReader
@@ -100,13 +101,13 @@ def direct_parse(raw, msgmode=0, validate=1, pbf=1):
         elif raw[:1] == b"\x24":
             m = NMEAReader.parse(raw, validate=validate, msgmode=msgmode)
         else:
-            m = RTCMReader.parse(raw, validate=validate, labelmsm=1)
+            m = RTCMReader.parse(raw, validate=validate, labelmsm=labelmsm)
     except Exception as ex:  # noqa: BLE001
         return False, "rejected", family(ex)
     return True, digest(m), ""
 
 
-def run_reader(data, filt=7, quit=1, parsing=True, handler=True, msgmode=0, validate=1, pbf=1, keep_reads=True, intern=None):
+def run_reader(data, filt=7, quit=1, parsing=True, handler=True, msgmode=0, validate=1, pbf=1, keep_reads=True, intern=None, labelmsm=1):
     """One complete iteration of UBXReader over `data`.  Returns the run record."""
     from pyubx2 import UBXReader
 
@@ -118,13 +119,23 @@ def run_reader(data, filt=7, quit=1, parsing=True, handler=True, msgmode=0, vali
         events.append({"t": "handler", "n": 0, "got": 0, "a": 0, "b": stream.pos, "p": "", "fam": family(err)})
         errs.append(err)
 
-    kw = dict(msgmode=msgmode, validate=validate, protfilter=filt, quitonerror=quit, parsebitfield=pbf, parsing=parsing)
+    kw = dict(msgmode=msgmode, validate=validate, protfilter=filt, quitonerror=quit, parsebitfield=pbf, parsing=parsing, labelmsm=labelmsm)
     if handler:
         kw["errorhandler"] = on_error
     end = "eof"
     endfam = ""
     items = []
     raised = None
+    import signal
+    import threading
+
+    from .frames import ObserverTimeout, _alarm
+
+    use_alarm = threading.current_thread() is threading.main_thread()
+    if use_alarm:  # wall-clock watchdog: a pure-CPU hang makes no stream call, so the call bound cannot see it
+        old = signal.signal(signal.SIGALRM, _alarm)
+        global _HANGS
+        signal.alarm((10 if _HANGS == 0 else 2) + len(data) // 20000)
     try:
         rdr = UBXReader(stream, **kw)
         it = iter(rdr)
@@ -139,8 +150,9 @@ def run_reader(data, filt=7, quit=1, parsing=True, handler=True, msgmode=0, vali
             items.append({"raw": rb, "ok_raw": ok_raw, "endpos": stream.pos, "pt": ptype(parsed), "pd": digest(parsed)})
             events.append({"t": "item", "n": 0, "got": 0, "a": stream.pos - len(rb), "b": stream.pos,
                            "p": "", "fam": ""})
-    except HangGuard:
+    except (HangGuard, ObserverTimeout):
         end = "hang"
+        _HANGS += 1
     except Exception as ex:  # noqa: BLE001
         fam = family(ex)
         raised = ex
@@ -150,6 +162,9 @@ def run_reader(data, filt=7, quit=1, parsing=True, handler=True, msgmode=0, vali
             end = "raise"
             endfam = fam
             events.append({"t": "raise", "n": 0, "got": 0, "a": 0, "b": stream.pos, "p": "", "fam": fam})
+    if use_alarm:
+        signal.alarm(0)
+        signal.signal(signal.SIGALRM, old)
     run = {
         "filter": filt, "quit": quit, "parsing": 1 if parsing else 0, "handler": 1 if handler else 0,
         "msgmode": msgmode, "validate": validate, "pbf": pbf,
